@@ -181,6 +181,8 @@ UpdateKV(cur, pairs) == DictFromPairs(pairs, cur)
 RefDict(cur, op) ==
     CASE op.m = "setitem"    -> Result(TRUE, DictSet(cur, op.k, op.v), NoRet, "", FALSE)
       [] op.m \in {"update", "ior"} -> Result(TRUE, UpdateKV(cur, op.kvs), NoRet, "", FALSE)
+      \* plain_dict | typed_dict: a plain dict; the plain dict's keys first, the typed dict's values win
+      [] op.m = "ror" -> Result(TRUE, cur, DictV(UpdateKV(op.kvs, cur)), "", FALSE)
       [] op.m = "setdefault" -> IF DictHas(cur, op.k) THEN Result(TRUE, cur, DictGet(cur, op.k), "", FALSE)
                                 ELSE Result(TRUE, Append(cur, <<op.k, op.v>>), op.v, "", FALSE)
       [] op.m = "pop"        -> IF DictHas(cur, op.k) THEN Result(TRUE, DictDel(cur, op.k), DictGet(cur, op.k), "", FALSE)
@@ -231,11 +233,13 @@ ProxDict(cur, op) ==
                  IF PairsOk(ys) THEN Result(TRUE, UpdateKV(cur, NormPairs(ys)), NoRet, "", FALSE)
                  ELSE Raise(cur, "ValueError")
       [] op.m = "copy" -> Result(TRUE, cur, DictV(cur), "", TRUE)
+      [] op.m = "ror" -> Result(TRUE, cur, DictV(UpdateKV(op.src.kvs, cur)), "", FALSE)
       [] OTHER -> RefDict(cur, op)
 
 DRefArgs(op) ==
     CASE op.m \in {"setitem", "setdefault"} -> [op EXCEPT !.k = NormK(op.k).v, !.v = NormV(op.v).v]
       [] op.m \in {"update", "ior"} -> op @@ [kvs |-> IF op.src.k = "same" THEN RD ELSE NormPairs(DYield(op.src))]
+      [] op.m = "ror" -> op @@ [kvs |-> op.src.kvs]
       [] op.m = "update_kw" -> [m |-> "update", kvs |-> (IF op.src.k = "same" THEN RD ELSE NormPairs(DYield(op.src))) \o NormPairs(op.kw)]
       [] OTHER -> op
 DAcceptable(op) ==
@@ -285,6 +289,7 @@ DistinctKeys(p) == \A i, j \in DOMAIN p : i # j => p[i][1] # p[j][1]
 DictOps ==
     {[m |-> mm, k |-> k, v |-> v] : mm \in {"setitem", "setdefault", "popd"}, k \in KeyCands, v \in ValCands}
     \cup {[m |-> mm, src |-> s] : mm \in {"update", "ior"}, s \in {x \in DSrcs : x.k = "pairs" \/ DistinctKeys(x.kvs)}}
+    \cup {[m |-> "ror", src |-> s] : s \in {x \in DSrcs : x.k = "dict" /\ DistinctKeys(x.kvs) /\ PairsOk(x.kvs) /\ NormPairs(x.kvs) = x.kvs}}
     \cup {[m |-> "update_kw", src |-> s, kw |-> p] :
               s \in {x \in DSrcs : x.k \in {"same", "dict", "other"} /\ Len(x.kvs) <= 1},
               p \in {q \in Pairs2 : Len(q) = 1 /\ IsStr(q[1][1])}}
